@@ -614,6 +614,12 @@ def run(ck: Check):
         "collision injection: hash_data as imported by base_full_cache/_hdf5_file_singleton is replaced in the worker process by the specification's colliding hash table",
     ]
 
+    # ---- specification growth (outside C05 as stated): the data protocol of Discipline.execute without a cache
+    # (specs/DiscIO.tla); disagreements are OBSERVATIONS and never change the exit code
+    from ..growth import g05_disc_io
+
+    g05_disc_io.run(ck)
+
 
 def plan(ck, kind, tol, collide=False, selfupd=False):
     """Discipline flavours (inplace?) and number of tour paths executed per configuration (None = the whole
